@@ -626,5 +626,64 @@ let d = *d_ref; let w = *w_ref;
 //@end
 }
 
+// ---- C20 as lemmas over the contracts proved above (reading: unit `deviation`); in exact arithmetic (A-REAL) the order of
+// summation is immaterial, so logically equal arrays give the same real value: on the machine the answers then agree up to the
+// summation roundoff, which is what the property asks of floating-point sums ----------------------------------------------
+pub open spec fn same_logical<A, D: Dimension>(a: &ArrayN<A, D>, b: &ArrayN<A, D>) -> bool { a@ == b@ && a.shape_spec() == b.shape_spec() }
+pub open spec fn same_err(e1: MultiInputError, e2: MultiInputError) -> bool {
+    match (e1, e2) {
+        (MultiInputError::EmptyInput, MultiInputError::EmptyInput) => true,
+        (MultiInputError::ShapeMismatch(s1), MultiInputError::ShapeMismatch(s2)) => s1.first_shape@ == s2.first_shape@ && s1.second_shape@ == s2.second_shape@,
+        _ => false,
+    }
+}
+proof fn lemma_layout_weighted_var<A: AddAssign + Float + FromPrimitive, D: Dimension>(a1: ArrayN<A, D>, a2: ArrayN<A, D>, w1: ArrayN<A, D>, w2: ArrayN<A, D>, ddof: A, r1: Result<A, MultiInputError>, r2: Result<A, MultiInputError>)
+    requires
+        same_logical(&a1, &a2), same_logical(&w1, &w2),
+        call_ensures(ArrayN::<A, D>::weighted_var, (&a1, &w1, ddof), r1), call_ensures(ArrayN::<A, D>::weighted_var, (&a2, &w2, ddof), r2),
+    ensures
+        r1 is Err <==> r2 is Err, r1 is Err ==> same_err(r1->Err_0, r2->Err_0), // [C20]
+        ({ let xs = vals(a1@); let ws = vals(w1@); let wt = wpsum(xs, ws, 0, xs.len() as int);
+           r1 is Ok && wt > 0real && wt - ddof.val() != 0real ==> r1->Ok_0.val() == r2->Ok_0.val() }), // [C20]
+{
+}
+proof fn lemma_layout_central_moment<A: Float + FromPrimitive, D: Dimension>(a1: ArrayN<A, D>, a2: ArrayN<A, D>, order: u16, r1: Result<A, MinMaxError>, r2: Result<A, MinMaxError>)
+    requires
+        same_logical(&a1, &a2),
+        call_ensures(ArrayN::<A, D>::central_moment, (&a1, order), r1), call_ensures(ArrayN::<A, D>::central_moment, (&a2, order), r2),
+    ensures
+        r1 is Err ==> r1 == r2, r2 is Err ==> r1 == r2, // [C20]
+        r1 is Ok && r2 is Ok ==> r1->Ok_0.val() == r2->Ok_0.val(), // [C20]
+{
+}
+proof fn lemma_layout_kurtosis<A: Float + FromPrimitive, D: Dimension>(a1: ArrayN<A, D>, a2: ArrayN<A, D>, r1: Result<A, MinMaxError>, r2: Result<A, MinMaxError>)
+    requires
+        same_logical(&a1, &a2),
+        call_ensures(ArrayN::<A, D>::kurtosis, (&a1,), r1), call_ensures(ArrayN::<A, D>::kurtosis, (&a2,), r2),
+    ensures
+        r1 is Err ==> r1 == r2, r2 is Err ==> r1 == r2, // [C20]
+        r1 is Ok && r2 is Ok && cmoment_def(vals(a1@), 2) != 0real ==> r1->Ok_0.val() == r2->Ok_0.val(), // [C20]
+{
+}
+proof fn lemma_layout_skewness<A: Float + FromPrimitive, D: Dimension>(a1: ArrayN<A, D>, a2: ArrayN<A, D>, r1: Result<A, MinMaxError>, r2: Result<A, MinMaxError>)
+    requires
+        same_logical(&a1, &a2),
+        call_ensures(ArrayN::<A, D>::skewness, (&a1,), r1), call_ensures(ArrayN::<A, D>::skewness, (&a2,), r2),
+    ensures
+        r1 is Err ==> r1 == r2, r2 is Err ==> r1 == r2, // [C20]
+        r1 is Ok && r2 is Ok && rpow(sqrt_r(cmoment_def(vals(a1@), 2)), 3) != 0real ==> r1->Ok_0.val() == r2->Ok_0.val(), // [C20]
+{
+}
+proof fn lemma_layout_harmonic_mean<A: Float + FromPrimitive, D: Dimension>(a1: ArrayN<A, D>, a2: ArrayN<A, D>, r1: Result<A, MinMaxError>, r2: Result<A, MinMaxError>)
+    requires
+        same_logical(&a1, &a2),
+        call_ensures(ArrayN::<A, D>::harmonic_mean, (&a1,), r1), call_ensures(ArrayN::<A, D>::harmonic_mean, (&a2,), r2),
+    ensures
+        r1 is Err ==> r1 == r2, r2 is Err ==> r1 == r2, // [C20]
+        ({ let rec = Seq::new(a1@.len(), |i: int| 1real / a1@[i].val());
+           r1 is Ok && r2 is Ok && mean_def(rec) != 0real ==> r1->Ok_0.val() == r2->Ok_0.val() }), // [C20]
+{
+}
+
 } // verus!
 fn main() {}
